@@ -11,6 +11,10 @@ CHECK = {
                   H("e1", variant="free", race=True, build_only=True, tiers=["thorough"], libs=["vrt", "vsync", "vtime", "vctx"],
                     inpkg={"internal/agent": ["e1/zz_verif_e1_agent.go"], "internal/dag/scheduler": ["e1/zz_verif_e1_sched.go"]}),
                   H("e1", sub="C03", **_E1),
+                  # the same oracles on free runs with real sh children through the real command executor, with the step
+                  # attributes the scripted executor cannot carry (output capture, redirect files, script bodies)
+                  H("e1", variant="free", sub="C03real", libs=["vrt", "vsync", "vtime", "vctx"], shards={"quick": "ncpu", "thorough": "ncpu"},
+                    inpkg={"internal/agent": ["e1/zz_verif_e1_agent.go"], "internal/dag/scheduler": ["e1/zz_verif_e1_sched.go"]}),
                   H("agentseq", sub="C03dry", shards={"quick": "ncpu", "thorough": "ncpu"})],
     "assumptions": [],
 }
